@@ -8,7 +8,17 @@
        (`_nested_.skip_bits(32)`), then the PARENT writes the header with `add_aligned_u32(_nested_length_ // 8)` at its own,
        still unmoved, cursor and skips over the nested bytes (`p_hdr`: a plain aligned 4-byte store, the bytes behind it are not
        zero at that moment);
-     - array length and union tag are appended with add_aligned_u<N>.
+     - array length and union tag are appended with add_aligned_u<N>;
+     - arrays (l.70-110): `assert len(..)`, then ONE call add_{aligned,unaligned}_array_of_bits for bool elements, ONE call
+       add_{aligned,unaligned}_array_of_standard_bit_length_primitives for primitive elements of standard bit length (the NumPy
+       array's little-endian memory image; a float16/float32 ARRAY is a NumPy float16/float32 array: it was rounded when it was
+       assigned, nothing is packed here), the element loop otherwise (`pw_array`, `py_array_kind`).
+   VALUE DOMAIN.  `VFlt x` of a float16/float32 field is the binary32 pattern of the field's value; the generated class stores a
+   scalar float as a Python float (binary64) and rounds it only when struct.pack('<e'|'<f') is called - for values that are not
+   binary32-representable that rounding step lies outside this model (the harness value generator only produces binary32
+   patterns); arrays are rounded by NumPy on assignment.  The generated setters REJECT (ValueError) integers outside the wire range
+   and finite floats outside the wire range whatever the cast mode, and arrays above the capacity: the objects the serializer
+   ever sees satisfy `Codec/PyAccept.v py_accepts`, on which the saturation / length-assert branches are dead.
    The chunk handed to the Serializer for a primitive field is a PARAMETER `lf` (the leaf): Codec/PyLeaf.v `py_leaf_bits` models
    the Python-level conversions explicitly (`max(min(..))` saturation, two's complement by the support functions, struct.pack with
    round-half-EVEN float16); with `lf := Wire.enc_prim` the walker hands over the specification's own encoding (used as the
@@ -21,7 +31,24 @@ Local Open Scope nat_scope.
 Record pyprims : Type := {
   p_add : list bool -> nat -> list bool -> option (list bool);   (* add_(un)aligned_unsigned / _u<N> / _bit at the cursor *)
   p_hdr : list bool -> nat -> N -> option (list bool);           (* add_aligned_u32 of the delimiter header *)
+  p_bits : list bool -> nat -> list bool -> option (list bool);  (* add_(un)aligned_array_of_bits(x): the whole bool array at once *)
+  p_std : nat -> list bool -> nat -> list bool -> option (list bool);
+      (* add_(un)aligned_array_of_standard_bit_length_primitives(x): w, buffer, cursor, the bits of the NumPy array's memory image *)
 }.
+
+(* which array path the template emits (serialization.j2 l.73-81, l.100-108): bool elements -> array_of_bits; primitive elements of
+   standard bit length (8/16/32/64-bit integers, float16/32/64) -> array_of_standard_bit_length_primitives; anything else -> the
+   element loop *)
+Inductive py_akind : Type := PABits | PAStd (p : prim) | PALoop.
+Definition py_std_w (w : nat) : bool := (w =? 8) || (w =? 16) || (w =? 32) || (w =? 64).
+Definition py_array_kind (e : ty) : py_akind :=
+  match e with
+  | TPrim PBool => PABits
+  | TPrim (PU w s) => if py_std_w w then PAStd (PU w s) else PALoop
+  | TPrim (PS w s) => if py_std_w w then PAStd (PS w s) else PALoop
+  | TPrim (PF w s) => if py_std_w w then PAStd (PF w s) else PALoop
+  | _ => PALoop
+  end.
 
 Section PyWalk.
   Variable Q : pyprims.
@@ -64,6 +91,22 @@ Section PyWalk.
       end.
   End PComb.
 
+  (* the two bulk adders are handed the concatenated leaf chunks of the elements (the array object's bits) *)
+  Definition pw_array (e : ty) (l : list val) (buf : list bool) (off : nat) (loop : pres) : pres :=
+    match py_array_kind e with
+    | PABits =>
+        match enc_list (lf PBool) l with
+        | Ok B => match p_bits Q buf off B with Some b => Ok (b, off + length B) | None => Err ETooSmall end
+        | Err e => Err e
+        end
+    | PAStd p =>
+        match enc_list (lf p) l with
+        | Ok B => match p_std Q (prim_bits p) buf off B with Some b => Ok (b, off + length B) | None => Err ETooSmall end
+        | Err e => Err e
+        end
+    | PALoop => loop
+    end.
+
   Definition pw_field (Sr : ty -> val -> list bool -> nat -> pres) (t : ty) (v : val) (buf : list bool) (off : nat) : pres :=
     match t with
     | TComp _ _ (Some _) =>
@@ -80,7 +123,7 @@ Section PyWalk.
     | TPrim p => pw_prim p v buf off
     | TFix e n =>
         match v with
-        | VArr l => if length l =? n then pw_list (pw_field pw_body e) l buf off else Err EShape
+        | VArr l => if length l =? n then pw_array e l buf off (pw_list (pw_field pw_body e) l buf off) else Err EShape
         | _ => Err EShape
         end
     | TVar e cap =>
@@ -88,7 +131,7 @@ Section PyWalk.
         | VArr l =>
             if cap <? length l then Err EBadLen
             else bind (p_set buf off (bits_of_N (prefix_bits cap) (N.of_nat (length l)))) (fun '(b, o) =>
-                   pw_list (pw_field pw_body e) l b o)
+                   pw_array e l b o (pw_list (pw_field pw_body e) l b o))
         | _ => Err EShape
         end
     | TComp false fs _ =>
